@@ -311,11 +311,15 @@ fn run_case(which: &'static str, c: &Case, seed: u64) -> Result<(), String> {
         let large = c.n > 50;
         for api in apis { for reverse in [false, true] {
             if large && api == Api::TryForEach { continue; }
+            let huge = c.n >= 8000;
+            if huge && (api != Api::ForEach || reverse) { continue; }
             // (api, reverse, dropped after k completions, Some(v) = through the v-th entry point that borrows the graph exclusively)
             let mut hists: Vec<Vec<(Api, bool, Option<usize>, Option<usize>)>> = vec![vec![(Api::ForEach, false, None, None)], vec![(Api::ForEach, true, None, None)], vec![(Api::Stream, false, Some(1usize), None)], vec![(Api::TryForEach, true, Some(0usize), None)],
                          vec![(Api::Stream, true, None, None), (Api::ForEach, false, Some(2usize), None)]];
             // large graphs (state that is only kept beyond some size): a few mixed-order histories only
             if large { hists = vec![vec![(Api::ForEach, false, None, None)], vec![(Api::ForEach, true, None, None)], vec![(Api::Stream, false, Some(3usize), None)], vec![(Api::Stream, true, Some(3usize), None), (Api::ForEach, false, None, None)]]; }
+            // graphs of thousands of functions: only `an exclusive entry point dropped after its first poll, then a run`
+            if huge { hists = (0..MUT_VARIANTS).map(|v| vec![(Api::ForEach, false, Some(0usize), Some(v))]).collect(); }
             for v in 0..(if large { 0 } else { MUT_VARIANTS }) {
                 // every exclusive entry point: dropped at once, dropped after one completion (reverse where it takes options), run to the end
                 hists.push(vec![(Api::ForEach, false, Some(0usize), Some(v))]);
@@ -424,6 +428,7 @@ fn main() {
     // histories on larger graphs (C15): mostly independent functions, so that the order in which ready functions are handed out is visible
     cases.push(Case { n: 70, accs: plain(70), edges: vec![(0, 69)], desc: "C15-large: 70 functions, one edge 0 -> 69".into() });
     cases.push(Case { n: 140, accs: plain(140), edges: vec![(0, 139), (5, 70), (70, 71)], desc: "C15-large: 140 functions, edges 0 -> 139, 5 -> 70 -> 71".into() });
+    if which == "C15" { cases.push(Case { n: 9000, accs: plain(9000), edges: vec![(0, 8999)], desc: "C15-large: 9000 functions, one edge 0 -> 8999".into() }); }
     // large fan-in / fan-out (effects of narrow counters and budgets only show beyond 255 direct predecessors)
     cases.push(Case { n: 301, accs: plain(301), edges: (0..300).map(|i| (i, 300)).collect(), desc: "fan-in: 300 functions -> 1 sink".into() });
     cases.push(Case { n: 301, accs: plain(301), edges: (1..301).map(|i| (0, i)).collect(), desc: "fan-out: 1 root -> 300 functions".into() });
